@@ -20,6 +20,16 @@ from .gamma import Gamma
 NONE = -9
 
 
+@xgi.nodestat_func
+def x01_twice_degree_plus_one(net, bunch):
+    return {n: 2 * len(net._node[n]) + 1 for n in bunch}
+
+
+@xgi.edgestat_func
+def x01_ten_times_size(net, bunch):
+    return {e: 10 * len(net._edge[e]) for e in bunch}
+
+
 def _do(f):
     with warnings.catch_warnings():
         warnings.simplefilter("ignore")
@@ -136,6 +146,26 @@ def shape_records(tag, j, g, rng):
                         [inv(x) for x in va], [bool(va.isdisjoint(vb))], [len(va)]]
             r, res = _do(f)
             add("view_algebra", res, r, st=st, k=k, s=A, ids=B)
+    # the network object as a container, and user-defined statistics
+    def cont():
+        probe = list(st["nodes"][:2]) + [77]
+        try:
+            H["never_set"]
+            missing = ["ok"]
+        except xgi.exception.XGIError:
+            missing = ["liberr"]
+        return [[len(H), H.num_nodes, H.num_edges], [iN(n) for n in H], [[x, g.node(x) in H] for x in probe], missing]
+    r, res = _do(cont)
+    add("container", res, r, st=st)
+    kk = rng.choice([1, 3, 5])
+
+    def custom():
+        s_ = H.nodes.x01_twice_degree_plus_one
+        return [[[iN(n), int(v)] for n, v in s_.asdict().items()], [int(v) for v in s_.aslist()],
+                [iN(n) for n in H.nodes.filterby("x01_twice_degree_plus_one", kk, "geq")],
+                [int(v) for v in H.edges.x01_ten_times_size.aslist()]]
+    r, res = _do(custom)
+    add("custom_stat", res, r, st=st, k=kk)
     # numeric summaries of the degree / edge-size statistics
     for k, stat in enumerate((H.nodes.degree, H.edges.size)):
         def f(stat=stat):
